@@ -47,7 +47,7 @@ byte-identical. non-trivial = depth >= 1 and an added header whose name is one o
     enums: &[],
     randoms: &[RandomDef {
         name: "redirected_flows",
-        cases: |t: Tier| t.pick(120_000, 12_000_000),
+        cases: |t: Tier| t.pick(300_000, 12_000_000),
         tape_len: 1_400,
         exec: None,
     }],
